@@ -15,7 +15,7 @@ import (
 
 func init() {
 	register("C01", runC01, propMeta{
-		Explanation: "(E7) every return of ExpressionAtom.Evaluate hands on the first result of DataContext.GetValue or of the child node's Evaluate unchanged: an operand reaches the operators as it was read. Decides, table row by table row, which operation is applied to which operands at which width; it does not compute results. (G1) precedence and associativity from the generated parser: in mathExpression and expression every binary alternative is (precedence predicate k, operator rule, recursive call with k+1) — left associative —, k(mul/div) > k(plus/minus) > 0, k(comparison) > k(logical) > 0, one logical alternative whose operator rule accepts exactly && and ||, the Sempred tables repeat the same k's, the primary alternatives are mathExpression(0) / [!] atom / [!] ( expression(0) ), and mathExpression can reach expression only through an atom's call arguments, so arithmetic binds tighter than comparison; thorough tier: the serialized ATN is decoded and its precedence-predicate transitions compared with the same table; (G2) the listener stores each operator's text into the field of the same name on the enclosing node and Accept* fills Left before Right, so the first child is the left operand; (E1) MathExpression.Evaluate dispatches + - * / (exhaustive over the two operator rules' tokens) to core.Add/Sub/Mul/Div(left value, right value); (E2) by kind-specialised constant propagation over all 15x15 kind pairs of each core function: the only non-error result is `a <op> b` with the function's own operator, left operand read from a and right from b with the accessor of their class, in int64 (signed or mixed), uint64 (both unsigned) or float64 (a float involved), string concatenation a then b for Add only, every other pair reaches only error returns, and every division is reached only over the non-zero edge of a test of b read with its own accessor; (E3) comparison: numberClass/TypeMap cover the 12 numeric kinds, compareNumbers by class pair compares integers as int64/uint64 (mixed signs by a sign test, then uint64) and reaches a float conversion only when a float is involved, its three results are <, ==, > of the same operands left-from-left right-from-right, the six comparison tokens map to eq, !eq, gt, lt, gt||eq, lt||eq, string comparison uses the six Go operators on .String() left-to-right, bool only == and !=, && and || evaluate .Bool() of both sides with the Go operator of the same spelling under a both-bool guard; (E4) `!` is applied last, to a value checked to be bool; (E5) @name/@desc/@sal/@id take the listener's per-rule fields, which are set from the rule header and reset at every rule entry, @id = ParseInt(name,10,64) or 0; literals use ParseInt(…,10,64), ParseFloat(…,64), ParseBool; (E6) every path of these evaluators that is not one of the rows returns a non-nil error. E3 closes with: every freshly computed boolean that becomes an expression's result is produced under an operator case that has evaluated both operands and established both kinds (no answer from one operand alone). In a well-typed arithmetic row no error return is reachable (Div: only over the zero edge of the divisor test). Not decided: numeric results, strconv/lexer behaviour, ANTLR's adaptive prediction engine (the tables it consumes are checked), stack depth. (G3) the node a handler of the expression level takes off the listener's stack is handed to its parent on every path, and every Accept* method of Expression / MathExpression / ExpressionAtom / MapVar stores its parameter itself: the tree evaluated is the tree parsed.",
+		Explanation: "(E7) every return of ExpressionAtom.Evaluate hands on the first result of DataContext.GetValue or of the child node's Evaluate unchanged: an operand reaches the operators as it was read. Decides, table row by table row, which operation is applied to which operands at which width; it does not compute results. (G1) precedence and associativity from the generated parser: in mathExpression and expression every binary alternative is (precedence predicate k, operator rule, recursive call with k+1) — left associative —, k(mul/div) > k(plus/minus) > 0, k(comparison) > k(logical) > 0, one logical alternative whose operator rule accepts exactly && and ||, the Sempred tables repeat the same k's, the primary alternatives are mathExpression(0) / [!] atom / [!] ( expression(0) ), and mathExpression can reach expression only through an atom's call arguments, so arithmetic binds tighter than comparison; thorough tier: the serialized ATN is decoded and its precedence-predicate transitions compared with the same table; (G2) the listener stores each operator's text into the field of the same name on the enclosing node and Accept* fills Left before Right, so the first child is the left operand; (E1) MathExpression.Evaluate dispatches + - * / (exhaustive over the two operator rules' tokens) to core.Add/Sub/Mul/Div(left value, right value); (E2) by kind-specialised constant propagation over all 15x15 kind pairs of each core function: the only non-error result is `a <op> b` with the function's own operator, left operand read from a and right from b with the accessor of their class, in int64 (signed or mixed), uint64 (both unsigned) or float64 (a float involved), string concatenation a then b for Add only, every other pair reaches only error returns, and every division is reached only over the non-zero edge of a test of b read with its own accessor; (E3) comparison: numberClass/TypeMap cover the 12 numeric kinds, compareNumbers by class pair compares integers as int64/uint64 (mixed signs by a sign test, then uint64) and reaches a float conversion only when a float is involved, its three results are <, ==, > of the same operands left-from-left right-from-right, the six comparison tokens map to eq, !eq, gt, lt, gt||eq, lt||eq, string comparison uses the six Go operators on .String() left-to-right, bool only == and !=, && and || evaluate .Bool() of both sides with the Go operator of the same spelling under a both-bool guard; (E4) `!` is applied last, to a value checked to be bool; (E5) @name/@desc/@sal/@id take the listener's per-rule fields, which are set from the rule header and reset at every rule entry, @id = ParseInt(name,10,64) or 0; literals use ParseInt(…,10,64), ParseFloat(…,64), ParseBool; (E6) every path of these evaluators that is not one of the rows returns a non-nil error. E3 closes with: every freshly computed boolean that becomes an expression's result is produced under an operator case that has evaluated both operands and established both kinds (no answer from one operand alone). In a well-typed arithmetic row no error return is reachable (Div: only over the zero edge of the divisor test). Not decided: numeric results, strconv/lexer behaviour, ANTLR's adaptive prediction engine (the tables it consumes are checked), stack depth. (G3) the node a handler of the expression level takes off the listener's stack is handed to its parent on every path, and every Accept* method of Expression / MathExpression / ExpressionAtom / MapVar stores its parameter itself: the tree evaluated is the tree parsed. Every value MathExpression.Evaluate returns is reflect.ValueOf of the first result of core.Add / Sub / Mul / Div, or the value of its only child (value-from-the-operator-table).",
 		Assumptions: []string{"Go's int64/uint64/float64 operators (wrapping, truncating division)", "fmt.Sprintf(\"%s%s\") concatenates", "ANTLR interprets precedence predicates as documented"},
 		Trusted:     append([]string{"antlr4 Go runtime ATN deserializer (thorough tier only, decoding a constant table)"}, commonTrusted...),
 	})
@@ -558,8 +558,24 @@ func (c *Ctx) ruleE2(rule string) {
 							why = fmt.Sprintf("result is %s, not a %s b", x.Describe(res), ops[name])
 							break
 						}
-						pa, cla, ta := x.operandOf(bo.X)
-						pb, clb, tb := x.operandOf(bo.Y)
+						// an operand read through a variable that holds, on this path, the result of a
+						// conversion helper
+						onPath := func(v ssa.Value) ssa.Value {
+							for k := 0; k < 4; k++ {
+								u, isLd := v.(*ssa.UnOp)
+								if !isLd || u.Op != token.MUL {
+									break
+								}
+								al, isAl := u.X.(*ssa.Alloc)
+								if !isAl || r.vals[al] == nil {
+									break
+								}
+								v = r.vals[al]
+							}
+							return v
+						}
+						pa, cla, ta := x.operandOf(onPath(bo.X))
+						pb, clb, tb := x.operandOf(onPath(bo.Y))
 						switch {
 						case pa != a || pb != b:
 							why = "operands are not (a, b) in this order"
@@ -1708,7 +1724,14 @@ func runC01(c *Ctx) {
 					if cc, isC := arg.(*ssa.Const); isC && cc.Value == nil {
 						continue // no value, with an error
 					}
-					if isOp(arg) {
+					allOp, some := true, false
+					for _, av := range x.ValuesAt(call.Call.Args[0], call) {
+						some = true
+						if av.V == nil || av.Outside || !isOp(x.Unwrap(av.V)) {
+							allOp = false
+						}
+					}
+					if isOp(arg) || (some && allOp) {
 						n++
 						continue
 					}
@@ -1716,7 +1739,7 @@ func runC01(c *Ctx) {
 				bad, badPos = x.Describe(o), r.Pos()
 			}
 		})
-		c.Check("E7-operand-as-read", "MathExpression.Evaluate#value-from-the-operator-table", bad == "" && n >= 6, badPos, "an arithmetic node must yield the result of core.Add / Sub / Mul / Div or the value of its only child (%d such returns found): %s", n, orStr(bad, "ok"))
+		c.Check("E7-operand-as-read", "MathExpression.Evaluate#value-from-the-operator-table", bad == "" && n >= 3, badPos, "an arithmetic node must yield the result of core.Add / Sub / Mul / Div or the value of its only child (%d such returns found): %s", n, orStr(bad, "ok"))
 	}
 	// G3: the tree that is evaluated is the tree that was parsed: the node a handler of the expression
 	// level takes off the listener's stack is handed to its parent on every path (the attach rule of
